@@ -1,3 +1,5 @@
 pub mod app;
 pub mod drive;
 pub mod gen_app;
+pub mod gen_req;
+pub mod hex;
